@@ -23,6 +23,7 @@ import (
 	"regexp"
 	"strconv"
 	"strings"
+	"sync"
 
 	"github.com/aclements/go-moremath/stats"
 	"golang.org/x/perf/benchmath"
@@ -132,8 +133,39 @@ var assumptions = map[string]benchmath.Assumption{
 }
 var anames = []string{"exact", "nothing", "normal"}
 
+// newSample copies the values (NewSample sorts its argument IN PLACE and keeps the slice). Samples
+// with the default threshold share the package-level benchmath.DefaultThresholds, as callers do; the
+// glob case at the end of the run checks that nothing wrote through that pointer.
 func newSample(vals []float64, alpha float64) *benchmath.Sample {
+	if alpha == 0.05 {
+		return benchmath.NewSample(append([]float64(nil), vals...), &benchmath.DefaultThresholds)
+	}
 	return benchmath.NewSample(append([]float64(nil), vals...), &benchmath.Thresholds{CompareAlpha: alpha})
+}
+
+// snapshot / modified: the calls of the property must not modify a sample (values, thresholds).
+type snap struct {
+	vals  []float64
+	alpha float64
+}
+
+func snapshot(s *benchmath.Sample) snap {
+	return snap{append([]float64(nil), s.Values...), s.Thresholds.CompareAlpha}
+}
+
+func (b snap) modified(s *benchmath.Sample) string {
+	if len(b.vals) != len(s.Values) {
+		return "values"
+	}
+	for i := range b.vals {
+		if math.Float64bits(b.vals[i]) != math.Float64bits(s.Values[i]) {
+			return "values"
+		}
+	}
+	if math.Float64bits(b.alpha) != math.Float64bits(s.Thresholds.CompareAlpha) {
+		return "thresholds"
+	}
+	return "none"
 }
 
 // Extreme magnitudes (values whose differences, squares or fourth powers leave the float64 range)
@@ -209,7 +241,9 @@ func sumCase(a string, vals []float64, conf float64, tag string) {
 		m, lo, hi := stats.MeanCI(sorted, conf)
 		ext = fmt.Sprintf(" mean=%s mlo=%s mhi=%s", raw(m), raw(lo), raw(hi))
 	}
+	snap0 := snapshot(s)
 	sum := assumptions[a].Summary(s, conf)
+	imod := snap0.modified(s)
 	wt := warnTag(sum.Warnings, conf)
 	if a == "exact" {
 		wt = warnTag(sum.Warnings, sorted[0], sorted[len(sorted)-1])
@@ -231,7 +265,7 @@ func sumCase(a string, vals []float64, conf float64, tag string) {
 	for i := 0; i < len(vals); i += 2 {
 		alt = append(alt, vals[i])
 	}
-	more := fmt.Sprintf(" irev=%s ialt=%s", trip(rev), trip(alt))
+	more := fmt.Sprintf(" irev=%s ialt=%s imod=%s", trip(rev), trip(alt), imod)
 	if a == "nothing" {
 		// the warning's claim, tried out on the real code: does a sample of the named size get a finite
 		// interval at this confidence, and does one value fewer still get an infinite one?
@@ -252,11 +286,11 @@ func sumCase(a string, vals []float64, conf float64, tag string) {
 	hx.Printf("obs %d center=%s lo=%s hi=%s conf=%s warn=%s pct=%s\n", id, canon(sum.Center), canon(sum.Lo), canon(sum.Hi),
 		canon(sum.Confidence), wt, hx.HexS(pct))
 	if a == "nothing" {
-		hx.Printf("sobs %d centre=ok ends=ok bracket=ok conf=ok warn=ok pct=ok reorder=ok needn=ok have=ok\n", id)
+		hx.Printf("sobs %d centre=ok ends=ok bracket=ok conf=ok warn=ok pct=ok reorder=ok inputs=ok needn=ok have=ok\n", id)
 	} else if a == "normal" {
-		hx.Printf("sobs %d centre=ok ends=ok bracket=ok conf=ok warn=ok pct=ok reorder=ok tcov=ok\n", id)
+		hx.Printf("sobs %d centre=ok ends=ok bracket=ok conf=ok warn=ok pct=ok reorder=ok inputs=ok tcov=ok\n", id)
 	} else {
-		hx.Printf("sobs %d centre=ok ends=ok bracket=ok conf=ok warn=ok pct=ok reorder=ok\n", id)
+		hx.Printf("sobs %d centre=ok ends=ok bracket=ok conf=ok warn=ok pct=ok reorder=ok inputs=ok\n", id)
 	}
 	id++
 }
@@ -556,6 +590,114 @@ func aliasCase(r *hx.Rand) {
 	id++
 }
 
+// cacheFamily: medianCache is process-wide state keyed by (n, confidence). The same key is requested
+// before and after other keys, with confidences that differ in the last bit — chosen AT a boundary:
+// c0 is a coverage the exact computation attains, so QuantileCI(n, 0.5, c0) and (n, 0.5, next(c0)) give
+// different intervals — and sizes up to 70 interleaved. Every call is an ordinary summary case, judged
+// against the stateless specification (the external results are recomputed without the cache).
+func cacheFamily(r *hx.Rand) {
+	for it := hx.N(12, 120); it > 0; it-- {
+		n1 := 2 + r.Intn(29)
+		c0 := stats.QuantileCI(n1, 0.5, hx.Pick(r, []float64{0.5, 0.8, 0.9, 0.95, 0.99})).Confidence
+		if c0 <= 0 || c0 >= 1 {
+			continue
+		}
+		up, down := math.Nextafter(c0, 2), math.Nextafter(c0, 0)
+		sizes := []int{n1, 1 + r.Intn(70), 31 + r.Intn(40), 70}
+		vals := map[int][]float64{}
+		for _, n := range sizes {
+			xs := make([]float64, n)
+			for i := range xs {
+				xs[i] = float64(r.Intn(500)) / 4
+			}
+			vals[n] = xs
+		}
+		seq := [][2]float64{{0, c0}, {0, up}, {1, c0}, {0, c0}, {2, up}, {0, down}, {3, c0}, {0, up}, {1, down}, {0, c0}, {3, up}, {0, down}}
+		for _, st := range seq {
+			n := sizes[int(st[0])]
+			sumCase("nothing", vals[n], st[1], "nothing+cache")
+		}
+	}
+}
+
+// concCase: Summary and Compare called from several goroutines at once on the SAME samples (shared
+// values, shared thresholds, shared medianCache); the harness is built with -race. Every concurrent
+// result must equal the sequential one.
+func concCase(r *hx.Rand) {
+	defer func() {
+		if e := recover(); e != nil {
+			panicCase("kind=conc", "conc", e)
+		}
+	}()
+	n1, n2 := 2+r.Intn(40), 2+r.Intn(40)
+	v1 := make([]float64, n1)
+	v2 := make([]float64, n2)
+	for i := range v1 {
+		v1[i] = float64(r.Intn(300)) / 4
+	}
+	for i := range v2 {
+		v2[i] = 10 + float64(r.Intn(300))/4
+	}
+	s1, s2 := newSample(v1, 0.05), newSample(v2, 0.05)
+	conf := 0.5 + float64(r.Intn(1000))/2048 // mostly fresh cache keys
+	type job struct {
+		a    string
+		kind int
+	}
+	var jobs []job
+	for _, a := range anames {
+		jobs = append(jobs, job{a, 0}, job{a, 1}, job{a, 2}, job{a, 0}, job{a, 2})
+	}
+	run := func(j job) string {
+		asm := assumptions[j.a]
+		switch j.kind {
+		case 0:
+			o := asm.Summary(s1, conf)
+			return fmt.Sprintf("%s:%s:%s:%s:%d", raw(o.Center), raw(o.Lo), raw(o.Hi), raw(o.Confidence), len(o.Warnings))
+		case 1:
+			o := asm.Summary(s2, conf)
+			return fmt.Sprintf("%s:%s:%s:%s:%d", raw(o.Center), raw(o.Lo), raw(o.Hi), raw(o.Confidence), len(o.Warnings))
+		}
+		o := asm.Compare(s1, s2)
+		return fmt.Sprintf("%s:%d:%d:%s:%d", raw(o.P), o.N1, o.N2, raw(o.Alpha), len(o.Warnings))
+	}
+	conc := make([]string, len(jobs))
+	var wg sync.WaitGroup
+	for i := range jobs {
+		wg.Add(1)
+		go func(i int) {
+			defer wg.Done()
+			defer func() {
+				if e := recover(); e != nil {
+					conc[i] = fmt.Sprintf("panic:%v", e)
+				}
+			}()
+			conc[i] = run(jobs[i])
+		}(i)
+	}
+	wg.Wait()
+	seq := make([]string, len(jobs))
+	var names []string
+	for i, j := range jobs {
+		seq[i] = run(j)
+		names = append(names, fmt.Sprintf("%s.%d", j.a, j.kind))
+	}
+	hx.Printf("case %d kind=conc n1=%d n2=%d conf=%s jobs=%s rc=%s rs=%s tag=conc\n", id, n1, n2, raw(conf),
+		strings.Join(names, ","), strings.Join(conc, ","), strings.Join(seq, ","))
+	hx.Printf("obs %d jobs=%d\n", id, len(jobs))
+	hx.Printf("sobs %d conc=ok\n", id)
+	id++
+}
+
+// globCase: package-level state after the whole run.
+func globCase() {
+	tab := benchmath.VerifUTestMinP()
+	hx.Printf("case %d kind=glob idef=%s itab=%s tag=globals\n", id, raw(benchmath.DefaultThresholds.CompareAlpha), list(tab[1:]))
+	hx.Printf("obs %d default=%s minp=%s\n", id, raw(benchmath.DefaultThresholds.CompareAlpha), list(tab[1:]))
+	hx.Printf("sobs %d default=ok minp=ok\n", id)
+	id++
+}
+
 // nanFamily (K only): comparisons of samples containing NaN under the rank-based and the exact model.
 func nanFamily(r *hx.Rand) {
 	nanv := math.NaN()
@@ -619,7 +761,21 @@ func cmpCase(r *hx.Rand, a string, v1, v2 []float64, alpha float64, alphaEqP boo
 			alpha = math.Float64frombits(b)
 		}
 	}
-	s1, s2 := newSample(v1, alpha), newSample(v2, 0.75) // Alpha must come from the FIRST sample
+	// thresholds of the two samples: different values (the code carries the FIRST sample's; only the
+	// correspondence pins that choice), equal values in separate structs, or one shared *Thresholds
+	alpha2 := alpha
+	s1 := newSample(v1, alpha)
+	var s2 *benchmath.Sample
+	switch r.Intn(3) {
+	case 0:
+		alpha2 = 0.75
+		s2 = newSample(v2, alpha2)
+	case 1:
+		s2 = newSample(v2, alpha2)
+	default:
+		s2 = benchmath.NewSample(append([]float64(nil), v2...), s1.Thresholds)
+	}
+	snap1, snap2 := snapshot(s1), snapshot(s2)
 	nan := hasNaN(v1) || hasNaN(v2)
 	switch {
 	case nan:
@@ -649,12 +805,16 @@ func cmpCase(r *hx.Rand, a string, v1, v2 []float64, alpha float64, alphaEqP boo
 	if a == "nothing" && len(v1)+len(v2) <= 12 {
 		exact = "ok"
 	}
-	hx.Printf("case %d kind=cmp a=%s v1=%s v2=%s alpha=%s%s old=%s new=%s ip=%s in1=%d in2=%d ialpha=%s iwarn=%s ip21=%s ipsh=%s ipsc=%s k=%d idelta=%s istr=%s tag=%s\n",
-		id, a, list(v1), list(v2), raw(alpha), ext, raw(old), raw(new), raw(c.P), c.N1, c.N2, raw(c.Alpha), wt,
-		p21, psh, psc, k, hx.HexS(delta), hx.HexS(str), tag)
+	imod := snap1.modified(s1)
+	if imod == "none" {
+		imod = snap2.modified(s2)
+	}
+	hx.Printf("case %d kind=cmp a=%s v1=%s v2=%s alpha=%s alpha2=%s%s old=%s new=%s ip=%s in1=%d in2=%d ialpha=%s iwarn=%s ip21=%s ipsh=%s ipsc=%s k=%d idelta=%s istr=%s imod=%s tag=%s\n",
+		id, a, list(v1), list(v2), raw(alpha), raw(alpha2), ext, raw(old), raw(new), raw(c.P), c.N1, c.N2, raw(c.Alpha), wt,
+		p21, psh, psc, k, hx.HexS(delta), hx.HexS(str), imod, tag)
 	hx.Printf("obs %d p=%s n1=%d n2=%d alpha=%s warn=%s delta=%s str=%s\n", id, canon(c.P), c.N1, c.N2, canon(c.Alpha), wt, hx.HexS(delta), hx.HexS(str))
 	if !nan {
-		hx.Printf("sobs %d n=ok prange=ok sym=ok shuf=ok scale=ok exact=%s alpha=ok warn=ok errp=ok shown=ok delta=ok str=ok\n", id, exact)
+		hx.Printf("sobs %d n=ok prange=ok sym=ok shuf=ok scale=ok exact=%s alpha=ok warn=ok errp=ok shown=ok delta=ok str=ok inputs=ok\n", id, exact)
 	}
 	id++
 }
@@ -1031,6 +1191,11 @@ func main() {
 	for i := hx.N(400, 4000); i > 0; i-- {
 		aliasCase(ra)
 	}
+	cacheFamily(hx.NewRand(1318))
+	rc := hx.NewRand(1319)
+	for i := hx.N(60, 600); i > 0; i-- {
+		concCase(rc)
+	}
 
 	renderCases(r, hx.N(4000, 40000))
 
@@ -1091,4 +1256,5 @@ func main() {
 			cmpCase(r, a, v1, v2, alpha, eq, tag)
 		}
 	}
+	globCase()
 }
